@@ -308,7 +308,41 @@ class BatchCase(Case):
           res += same_expr('%s:row-%d-alone%s' % (label, b, list(idx)), v, v1)
       return res
 
-    if t == 'lattice':
+    if t == 'premade':
+      # the real premade builders and real layer calls (no stubs) on a symbolic two-row batch: each output
+      # row mentions only that row's inputs (weights are arbitrary symbols)
+      from vt import kerasc
+      import props.C03 as C03
+      pm, cf = load.mod('premade'), load.mod('configs')
+      spec = cfg['spec']
+      tensors = {}
+      for f in spec['features']:
+        if f['kind'] == 'cat':
+          tensors[f['name']] = tfc.convert_to_tensor([[cfg['cat_rows'][0]], [cfg['cat_rows'][1]]], dtype=tfc.int32)
+        else:
+          tensors[f['name']] = tfc.sym([2, 1], 'x')    # all features share the base name `x`: row index first
+          tensors[f['name']] = tfc.Tensor(np.array([[P.var('x[0, %d]' % len(tensors))], [P.var('x[1, %d]' % len(tensors))]],
+                                                   dtype=object), tfc.float32)
+
+      def provider(layer, name, shape, dt, init, cons):
+        if not getattr(layer, '_vt_adding_trainable', True):
+          return None
+        return tfc.sym(shape, E.fresh_name('w'))
+
+      def inp(name, shape, dt):
+        for f in spec['features']:
+          if name is not None and name.endswith('_' + f['name']):
+            return tensors[f['name']]
+        raise tfc.NoContract('unexpected keras.Input %r' % (name,))
+      kerasc.WEIGHT_PROVIDER[0], kerasc.INPUT_PROVIDER[0] = provider, inp
+      try:
+        out = tfc._t(C03.build_model(pm, cf, spec).outputs)
+      finally:
+        kerasc.WEIGHT_PROVIDER[0] = kerasc.INPUT_PROVIDER[0] = None
+      cl.append(('premade:output-shape', B.const(tuple(out.a.shape) == (2, 1))))
+      for b in range(2):
+        cl += depends_only('premade:row-%d-only' % b, out.a[b, 0], lambda base, i, b=b: base != 'x' or i[0] == b)
+    elif t == 'lattice':
       ll = load.mod('lattice_lib')
       sizes = cfg['sizes']
       K = tfc.sym([int(np.prod(sizes)), 1], 'K')
@@ -398,6 +432,11 @@ def configs(tier, rng):
     for U in (2, 3):
       jobs.append(('units', dict(target='lattice_output', units=U, sizes=sizes)))
     jobs.append(('batch', dict(target='lattice', sizes=sizes)))
+  import props.C03 as C03
+  for k, spec in enumerate(C03.model_specs(tier)):
+    if spec['kind'] == 'stack' or (tier == 'quick' and k % 2) or spec.get('model', {}).get('interpolation') == 'simplex':
+      continue     # simplex needs a path oracle over bounded inputs; its row independence is the Lattice target's
+    jobs.append(('batch', dict(target='premade', spec=spec, cat_rows=[0, 1])))
   for n in (1, 2, 3):
     for U in (2, 3):
       jobs.append(('units', dict(target='linear_output', units=U, n=n)))
